@@ -330,16 +330,19 @@ Qed.
 Definition unnamed_ok (bp : BPort) (svc : Service) : Prop :=
   bp_name bp = "" -> forall p, In p (s_ports svc) -> sp_name p = "" -> sp_port p = bp_num bp.
 
-Lemma port_matches_spec bp svc :
-  unnamed_ok bp svc -> forall p, In p (s_ports svc) -> port_matches bp p = spec_port_matches bp p.
+Lemma port_matches_spec fx bp svc :
+  (fx40 fx = true \/ unnamed_ok bp svc) ->
+  forall p, In p (s_ports svc) -> port_matches fx bp p = spec_port_matches bp p.
 Proof.
   intros Hu p Hp. unfold port_matches, spec_port_matches.
   destruct (String.eqb (bp_name bp) "") eqn:E; simpl.
-  - apply String.eqb_eq in E. rewrite E.
-    destruct (sp_port p =? bp_num bp) eqn:E2; simpl; [reflexivity|].
+  - destruct (sp_port p =? bp_num bp) eqn:E2; simpl; [reflexivity|].
+    destruct Hu as [-> | Hu]; [reflexivity|].
+    destruct (fx40 fx); [reflexivity|]. simpl.
+    apply String.eqb_eq in E. rewrite E.
     destruct (String.eqb (sp_name p) "") eqn:E3; [|reflexivity].
     apply String.eqb_eq in E3. rewrite (Hu E p Hp E3), Z.eqb_refl in E2. discriminate.
-  - reflexivity.
+  - destruct (fx40 fx); reflexivity.
 Qed.
 
 Lemma find_ext {A} (f g : A -> bool) l : (forall x, In x l -> f x = g x) -> find f l = find g l.
@@ -348,17 +351,24 @@ Proof.
   rewrite (H x) by now left. destruct (g x); [reflexivity|]. apply IH. intros y Hy. apply H. now right.
 Qed.
 
-Lemma find_svc_port_spec bp svc :
-  unnamed_ok bp svc -> find_svc_port bp (s_ports svc) = spec_ref_port bp (s_ports svc).
+Lemma find_svc_port_spec fx bp svc :
+  (fx40 fx = true \/ unnamed_ok bp svc) -> find_svc_port fx bp (s_ports svc) = spec_ref_port bp (s_ports svc).
 Proof. intros Hu. apply find_ext. now apply port_matches_spec. Qed.
 
+(* getIPAddressesFromEndpoints keeps the set of addresses; with F41 each address once *)
+Lemma In_addr_list fx l x : In x (addr_list fx l) <-> In x (map fst l).
+Proof. unfold addr_list. destruct (fx41 fx); [apply nodup_In|reflexivity]. Qed.
+
+Lemma NoDup_addr_list fx l : fx41 fx = true -> NoDup (addr_list fx l).
+Proof. unfold addr_list. intros ->. apply NoDup_nodup. Qed.
+
 (* ---------- the main theorem about getEndpointsForIngressBackend / ...ForUpstream ---------- *)
-Theorem resolve_exact plus c ns name bp l :
-  resolve plus c ns name bp = Ok (l, false) ->
+Theorem resolve_exact fx plus c ns name bp l :
+  resolve fx plus c ns name bp = Ok (l, false) ->
   exists svc sp P,
     find_svc c ns name = Some svc /\ s_ns svc = ns /\ s_name svc = name /\
-    find_svc_port bp (s_ports svc) = Some sp /\
-    (unnamed_ok bp svc -> spec_ref_port bp (s_ports svc) = Some sp) /\
+    find_svc_port fx bp (s_ports svc) = Some sp /\
+    (fx40 fx = true \/ unnamed_ok bp svc -> spec_ref_port bp (s_ports svc) = Some sp) /\
     target_resolves c svc sp P /\ P <> 0 /\
     l <> [] /\ NoDup l /\
     (forall x, In x (map fst l) <-> ideal_member c svc P x) /\
@@ -368,15 +378,17 @@ Proof.
   destruct (find_svc_some _ _ _ _ Esvc) as (_ & Hns & Hname).
   unfold eps_for_backend.
   destruct (svc_slices c svc) as [|sl0 sls0] eqn:Esl.
-  { destruct (s_type svc); [discriminate|]. destruct plus; discriminate. }
+  { destruct (s_type svc); [discriminate|]. destruct plus; [|discriminate].
+    unfold external_eps. destruct (fx42 fx && negb (String.eqb (bp_name bp) "")); [|discriminate].
+    destruct (find_svc_port fx bp (s_ports svc)); discriminate. }
   rewrite <- Esl. unfold eps_for_port.
-  destruct (find_svc_port bp (s_ports svc)) as [sp|] eqn:Esp; [|discriminate].
+  destruct (find_svc_port fx bp (s_ports svc)) as [sp|] eqn:Esp; [|discriminate].
   destruct (get_target_port c svc sp) as [P|] eqn:EP; [|discriminate].
   destruct (P =? 0) eqn:E0; [discriminate|]. apply Z.eqb_neq in E0.
   destruct (make_peps P (ready_eps (select_slices P (svc_slices c svc)))) as [|q qs] eqn:Em; [discriminate|].
   intros [= <-]. rewrite <- Em.
   exists svc, sp, P. repeat split; auto.
-  - intros Hu. now rewrite <- find_svc_port_spec.
+  - intros Hu. now rewrite <- (find_svc_port_spec fx).
   - now apply get_target_port_resolves.
   - rewrite Em. discriminate.
   - apply NoDup_dedup.
@@ -386,11 +398,11 @@ Proof.
 Qed.
 
 (* nothing usable -> the call fails and the Endpoints entry is empty *)
-Theorem resolve_nothing_usable plus c ns name bp svc sp P :
+Theorem resolve_nothing_usable fx plus c ns name bp svc sp P :
   find_svc c ns name = Some svc -> svc_slices c svc <> [] ->
-  find_svc_port bp (s_ports svc) = Some sp -> target_resolves c svc sp P ->
+  find_svc_port fx bp (s_ports svc) = Some sp -> target_resolves c svc sp P ->
   (forall x, ~ ideal_member c svc P x) ->
-  exists e, resolve plus c ns name bp = Err e.
+  exists e, resolve fx plus c ns name bp = Err e.
 Proof.
   intros Esvc Hsl Esp HP Hnone. unfold resolve. rewrite Esvc. unfold eps_for_backend.
   destruct (svc_slices c svc) as [|sl0 sls0] eqn:Esl; [contradiction|]. rewrite <- Esl.
@@ -402,16 +414,16 @@ Qed.
 
 (* an address none of whose listings (in slices of this service exposing P) is ready = true
    is not served; in particular addresses of other services, other ports, unready endpoints *)
-Theorem resolve_never_serves plus c ns name bp l a :
-  resolve plus c ns name bp = Ok (l, false) ->
+Theorem resolve_never_serves fx plus c ns name bp l a :
+  resolve fx plus c ns name bp = Ok (l, false) ->
   forall svc sp P,
-    find_svc c ns name = Some svc -> find_svc_port bp (s_ports svc) = Some sp -> target_resolves c svc sp P ->
+    find_svc c ns name = Some svc -> find_svc_port fx bp (s_ports svc) = Some sp -> target_resolves c svc sp P ->
     (forall sl e, In sl (c_slices c) -> sl_svc sl = s_name svc -> sl_ns sl = s_ns svc -> has_port_num sl P ->
                   In e (sl_eps sl) -> In a (e_addrs e) -> e_ready e <> Some true) ->
     ~ In (join a P) (map fst l).
 Proof.
   intros H svc sp P Esvc Esp HP Hno Hin.
-  destruct (resolve_exact _ _ _ _ _ _ H) as (svc' & sp' & P' & E1 & _ & _ & E2 & _ & HP' & _ & _ & _ & Hiff & _).
+  destruct (resolve_exact _ _ _ _ _ _ _ H) as (svc' & sp' & P' & E1 & _ & _ & E2 & _ & HP' & _ & _ & _ & Hiff & _).
   rewrite Esvc in E1. injection E1 as <-. rewrite Esp in E2. injection E2 as <-.
   apply get_target_port_resolves in HP, HP'. rewrite HP in HP'. injection HP' as <-.
   apply Hiff in Hin. destruct Hin as (sl & e & a' & Hsl & H1 & H2 & H3 & He & Hr & Ha & E).
@@ -419,16 +431,28 @@ Proof.
 Qed.
 
 (* ---------- ExternalName ---------- *)
-Theorem resolve_external plus c ns name bp l :
-  resolve plus c ns name bp = Ok (l, true) ->
-  exists svc, find_svc c ns name = Some svc /\ s_type svc = ExternalNameT /\ svc_slices c svc = [] /\
-              plus = true /\ l = [(join_plain (s_extname svc) (bp_num bp), "")].
+Theorem resolve_external fx plus c ns name bp l :
+  resolve fx plus c ns name bp = Ok (l, true) ->
+  exists svc port, find_svc c ns name = Some svc /\ s_type svc = ExternalNameT /\ svc_slices c svc = [] /\
+              plus = true /\ l = [(join_plain (s_extname svc) port, "")] /\
+              (fx42 fx = false \/ bp_name bp = "" -> port = bp_num bp) /\
+              (fx42 fx = true -> bp_name bp <> "" ->
+               exists sp, find_svc_port fx bp (s_ports svc) = Some sp /\ port = sp_port sp).
 Proof.
   unfold resolve. destruct (find_svc c ns name) as [svc|] eqn:Esvc; [|discriminate].
   unfold eps_for_backend. destruct (svc_slices c svc) as [|sl0 sls0] eqn:Esl.
   - destruct (s_type svc) eqn:Et; [discriminate|]. destruct plus; [|discriminate].
-    intros [= <-]. exists svc. auto.
-  - destruct (eps_for_port c svc bp (sl0 :: sls0)); discriminate.
+    unfold external_eps.
+    destruct (fx42 fx) eqn:F; simpl.
+    + destruct (String.eqb (bp_name bp) "") eqn:En; simpl.
+      * apply String.eqb_eq in En. intros [= <-]. exists svc, (bp_num bp). repeat split; auto. intros _ H. contradiction.
+      * apply String.eqb_neq in En.
+        destruct (find_svc_port fx bp (s_ports svc)) as [sp|] eqn:Esp; [|discriminate].
+        intros [= <-]. exists svc, (sp_port sp). repeat split; auto.
+        -- intros [H|H]; [discriminate|contradiction].
+        -- intros _ _. eauto.
+    + intros [= <-]. exists svc, (bp_num bp). repeat split; auto. intros H. discriminate.
+  - destruct (eps_for_port fx c svc bp (sl0 :: sls0)); discriminate.
 Qed.
 
 (* ---------- the sub-selector variant ---------- *)
@@ -492,12 +516,12 @@ Definition backend_port_wf (b : Backend) : Prop :=
   (bp_name (b_port b) = "" /\ bp_num (b_port b) <> 0) \/
   (b_kind b = KIng /\ bp_name (b_port b) <> "" /\ bp_num (b_port b) = 0).
 
-Theorem cluster_ip_entry plus c ns b svc sp :
+Theorem cluster_ip_entry fx plus c ns b svc sp :
   b_clusterip b = true -> b_kind b <> KTS -> backend_port_wf b ->
   find_svc c ns (b_svc b) = Some svc ->
-  is_external (resolve plus c ns (b_svc b) (b_port b)) = false ->
+  is_external (resolve fx plus c ns (b_svc b) (b_port b)) = false ->
   spec_ref_port (b_port b) (s_ports svc) = Some sp ->
-  endpoints_entry plus c ns b = ([join (s_clusterIP svc) (sp_port sp)], false).
+  endpoints_entry fx plus c ns b = ([join (s_clusterIP svc) (sp_port sp)], false).
 Proof.
   intros Hc Hk Hwf Esvc Hext Hsp. unfold endpoints_entry.
   unfold spec_ref_port in Hsp. pose proof (find_some _ _ Hsp) as [_ Hm].
@@ -523,29 +547,50 @@ Proof.
 Qed.
 
 (* ---------- the Endpoints entry is the resolution result ---------- *)
-Theorem entry_is_resolution plus c ns b :
+Theorem entry_is_resolution fx plus c ns b :
   b_clusterip b = false -> b_subsel b = [] ->
-  endpoints_entry plus c ns b =
-    (addrs_of (resolve plus c ns (b_svc b) (b_port b)), is_external (resolve plus c ns (b_svc b) (b_port b)) && plus).
+  endpoints_entry fx plus c ns b =
+    (addrs_of fx (resolve fx plus c ns (b_svc b) (b_port b)), is_external (resolve fx plus c ns (b_svc b) (b_port b)) && plus).
 Proof.
   intros Hc Hs. unfold endpoints_entry. rewrite Hc, Hs, andb_false_r.
   destruct (b_kind b); try reflexivity.
   unfold resolve. destruct (find_svc c ns (b_svc b)); reflexivity.
 Qed.
 
-Theorem entry_is_sub_resolution plus c ns b :
+Theorem entry_is_sub_resolution fx plus c ns b :
   b_clusterip b = false -> b_subsel b <> [] -> (b_kind b = KVS \/ b_kind b = KVSR) ->
-  fst (endpoints_entry plus c ns b) =
-    match resolve_sub c ns (b_svc b) (bp_num (b_port b)) (b_subsel b) with Ok l => map fst l | Err _ => [] end.
+  fst (endpoints_entry fx plus c ns b) =
+    match resolve_sub c ns (b_svc b) (bp_num (b_port b)) (b_subsel b) with Ok l => addr_list fx l | Err _ => [] end.
 Proof.
   intros Hc Hs Hk. unfold endpoints_entry. rewrite Hc.
   destruct Hk as [-> | ->]; destruct (b_subsel b); try contradiction;
     destruct (resolve_sub c ns (b_svc b) (bp_num (b_port b)) (p :: l)); reflexivity.
 Qed.
 
+(* with F41 every Endpoints entry lists each address once, whatever the cluster *)
+Theorem entry_each_once fx plus c ns b : fx41 fx = true -> NoDup (fst (endpoints_entry fx plus c ns b)).
+Proof.
+  intros F. unfold endpoints_entry.
+  assert (Hr : forall r, NoDup (addrs_of fx r)).
+  { intros [[l x]|e]; simpl; [now apply NoDup_addr_list|constructor]. }
+  assert (H1 : forall x : string, NoDup [x]) by (intros x; constructor; [intros []|constructor]).
+  destruct (b_kind b); simpl.
+  - destruct (find_svc c ns (b_svc b)); [|constructor].
+    destruct (negb (is_external (resolve fx plus c ns (b_svc b) (b_port b))) && b_clusterip b); simpl; auto.
+  - destruct (b_clusterip b).
+    + destruct (find_svc c ns (b_svc b)); simpl; [auto|constructor].
+    + destruct (b_subsel b); simpl; [auto|].
+      destruct (resolve_sub c ns (b_svc b) (bp_num (b_port b)) (p :: l)); simpl; [now apply NoDup_addr_list|constructor].
+  - destruct (b_clusterip b).
+    + destruct (find_svc c ns (b_svc b)); simpl; [auto|constructor].
+    + destruct (b_subsel b); simpl; [auto|].
+      destruct (resolve_sub c ns (b_svc b) (bp_num (b_port b)) (p :: l)); simpl; [now apply NoDup_addr_list|constructor].
+  - auto.
+Qed.
+
 (* ---------- the generated upstream never disappears; empty -> error backend ---------- *)
 (* a service is recorded as ExternalName only under NGINX Plus *)
-Lemma entry_external_only_plus plus c ns b : snd (endpoints_entry plus c ns b) = true -> plus = true.
+Lemma entry_external_only_plus fx plus c ns b : snd (endpoints_entry fx plus c ns b) = true -> plus = true.
 Proof.
   unfold endpoints_entry.
   destruct (b_kind b); simpl;
@@ -609,16 +654,16 @@ Qed.
 (* the model passes the check S on every cluster, for a numeric or defaulted target port, when
    the two premises of the main theorem hold: so S rejects an implementation result only for
    a reason the theorems name *)
-Theorem entry_meets_ideal plus c ns b svc sp :
+Theorem entry_meets_ideal fx plus c ns b svc sp :
   b_clusterip b = false -> b_subsel b = [] ->
   find_svc c ns (b_svc b) = Some svc ->
   (s_type svc = ClusterIPT \/ svc_slices c svc <> []) ->
-  unnamed_ok (b_port b) svc ->
+  (fx40 fx = true \/ unnamed_ok (b_port b) svc) ->
   spec_ref_port (b_port b) (s_ports svc) = Some sp ->
   (match sp_target sp with TUnset => sp_port sp <> 0 | TNum n => n <> 0 | TNamed _ => False end) ->
-  (forall P, refs_functional c svc P) ->
+  (fx41 fx = true \/ forall P, refs_functional c svc P) ->
   exists ideal, ideal_entry plus c ns b = IExact ideal /\
-                exact_ok ideal (fst (endpoints_entry plus c ns b)) = true.
+                exact_ok ideal (fst (endpoints_entry fx plus c ns b)) = true.
 Proof.
   intros Hc Hs Esvc Hnext Hu Hsp Ht Hf.
   assert (Hext : svc_external c svc = false).
@@ -637,14 +682,17 @@ Proof.
     { rewrite Hs. destruct (b_kind b); reflexivity. }
     rewrite E. unfold ideal_for_port, P. destruct (sp_target sp); try reflexivity. contradiction.
   - rewrite entry_is_resolution by assumption. simpl.
-    destruct (resolve plus c ns (b_svc b) (b_port b)) as [[l x]|e] eqn:R.
+    destruct (resolve fx plus c ns (b_svc b) (b_port b)) as [[l x]|e] eqn:R.
     + destruct x.
-      * exfalso. apply resolve_external in R. destruct R as (svc' & E1 & E2 & E3 & _).
+      * exfalso. apply resolve_external in R. destruct R as (svc' & port & E1 & E2 & E3 & _).
         rewrite Esvc in E1. injection E1 as <-. unfold svc_external in Hext. rewrite E2, E3 in Hext. discriminate.
-      * destruct (resolve_exact _ _ _ _ _ _ R) as (svc' & sp' & P' & E1 & _ & _ & E2 & E2' & HP' & _ & _ & _ & Hiff & Hnd).
+      * destruct (resolve_exact _ _ _ _ _ _ _ R) as (svc' & sp' & P' & E1 & _ & _ & E2 & E2' & HP' & _ & _ & _ & Hiff & Hnd).
         rewrite Esvc in E1. injection E1 as <-. specialize (E2' Hu). rewrite Hsp in E2'. injection E2' as <-.
         apply get_target_port_resolves in HP'. rewrite HP in HP'. injection HP' as <-.
-        simpl. apply spec_decides_num. split; [apply Hnd, Hf|exact Hiff].
+        simpl. apply spec_decides_num. split.
+        -- destruct Hf as [F|Hf]; [now apply NoDup_addr_list|].
+           unfold addr_list. destruct (fx41 fx); [apply NoDup_nodup|apply Hnd, Hf].
+        -- intros y. rewrite In_addr_list. apply Hiff.
     + simpl. apply spec_decides_num. split; [constructor|].
       intros x. split; [intros []|]. intros Hx. exfalso.
       unfold resolve in R. rewrite Esvc in R. unfold eps_for_backend in R.
@@ -652,10 +700,35 @@ Proof.
       { destruct Hx as (sl & e' & a & Hsl & H1 & H2 & _).
         assert (In sl (svc_slices c svc)) by (apply In_svc_slices; auto). rewrite Esl in H. contradiction. }
       rewrite <- Esl in R. unfold eps_for_port in R.
-      rewrite (find_svc_port_spec _ _ Hu), Hsp, HP in R.
+      rewrite (find_svc_port_spec _ _ _ Hu), Hsp, HP in R.
       apply Z.eqb_neq in HP0. rewrite HP0 in R.
       destruct (make_peps P (ready_eps (select_slices P (svc_slices c svc)))) as [|q qs] eqn:Em; [|discriminate].
       apply make_peps_ideal in Hx. rewrite Em in Hx. contradiction.
+Qed.
+
+(* F42: an ExternalName service referenced through a port NAME is written with the number of
+   that service port (NGINX Plus), and the Endpoints entry is exactly the ideal one *)
+Theorem external_entry_meets_ideal fx c ns b svc :
+  fx42 fx = true -> b_kind b = KIng -> b_clusterip b = false ->
+  find_svc c ns (b_svc b) = Some svc -> svc_external c svc = true ->
+  exists ideal, ideal_entry true c ns b = IExact ideal /\
+                exact_ok ideal (fst (endpoints_entry fx true c ns b)) = true.
+Proof.
+  intros F Hk Hc Esvc Hext.
+  unfold ideal_entry, endpoints_entry, uses_cluster_ip, resolve. rewrite Esvc, Hk, Hc. simpl. rewrite Hext. simpl.
+  unfold eps_for_backend. unfold svc_external in Hext.
+  destruct (s_type svc); [discriminate|]. destruct (svc_slices c svc); [|discriminate].
+  unfold external_eps. rewrite F. simpl.
+  destruct (String.eqb (bp_name (b_port b)) "") eqn:En; simpl.
+  - eexists. split; [reflexivity|]. unfold addr_list. destruct (fx41 fx); simpl; unfold exact_ok, same_set, subsetb, mem; simpl;
+      rewrite String.eqb_refl; reflexivity.
+  - assert (Hm : find_svc_port fx (b_port b) (s_ports svc) = spec_ref_port (b_port b) (s_ports svc)).
+    { apply find_ext. intros p _. unfold port_matches, spec_port_matches. rewrite En. simpl.
+      destruct (fx40 fx); reflexivity. }
+    rewrite Hm. destruct (spec_ref_port (b_port b) (s_ports svc)) as [sp|]; simpl.
+    + eexists. split; [reflexivity|]. unfold addr_list. destruct (fx41 fx); simpl; unfold exact_ok, same_set, subsetb, mem; simpl;
+        rewrite String.eqb_refl; reflexivity.
+    + eexists. split; [reflexivity|]. reflexivity.
 Qed.
 
 (* ====================== what is false: concrete witnesses ====================== *)
@@ -681,10 +754,11 @@ Definition w_dup : Cluster :=
      c_pods := [] |}.
 
 Theorem each_once_refuted :
-  exists l, resolve false w_dup "ns" "web" {| bp_name := ""; bp_num := 80 |} = Ok (l, false) /\
-            map fst l = ["10.0.0.1:80"; "10.0.0.1:80"] /\ ~ NoDup (map fst l).
+  exists l, resolve legacy false w_dup "ns" "web" {| bp_name := ""; bp_num := 80 |} = Ok (l, false) /\
+            addr_list legacy l = ["10.0.0.1:80"; "10.0.0.1:80"] /\ ~ NoDup (addr_list legacy l) /\
+            addr_list repaired l = ["10.0.0.1:80"].
 Proof.
-  eexists. split; [vm_compute; reflexivity|]. split; [reflexivity|].
+  eexists. split; [vm_compute; reflexivity|]. split; [reflexivity|]. split; [|vm_compute; reflexivity].
   intros H. inversion H as [|x r Hn _]; subst. apply Hn. now left.
 Qed.
 
@@ -702,15 +776,15 @@ Definition w_pods : list Pod := [w_pod "web-0" "10.0.0.1" 8080; w_pod "web-1" "1
 Theorem named_port_refuted :
   forall pods, Permutation w_pods pods ->
     exists x, ideal_member_by_name (w_named pods) (w_svc "http" 80 (TNamed "web")) "http" x /\
-              ~ In x (addrs_of (resolve false (w_named pods) "ns" "web" {| bp_name := ""; bp_num := 80 |})).
+              (forall fx, ~ In x (addrs_of fx (resolve fx false (w_named pods) "ns" "web" {| bp_name := ""; bp_num := 80 |}))).
 Proof.
   intros pods Hp. apply Permutation_length_2_inv in Hp. destruct Hp as [-> | ->].
   - exists "10.0.0.2:9090". split.
     + apply ideal_name_iff. vm_compute. tauto.
-    + vm_compute. intros [H|[]]. discriminate.
+    + intros [[] [] []]; vm_compute; intros [H|[]]; discriminate.
   - exists "10.0.0.1:8080". split.
     + apply ideal_name_iff. vm_compute. tauto.
-    + vm_compute. intros [H|[]]. discriminate.
+    + intros [[] [] []]; vm_compute; intros [H|[]]; discriminate.
 Qed.
 
 (* (3) a backend that asks for port 9999 of a service whose only (unnamed) port is 80 gets the
@@ -722,7 +796,8 @@ Definition w_unnamed : Cluster :=
 
 Theorem port_match_refuted :
   spec_ref_port {| bp_name := ""; bp_num := 9999 |} (s_ports (w_svc "" 80 (TNum 8080))) = None /\
-  addrs_of (resolve false w_unnamed "ns" "web" {| bp_name := ""; bp_num := 9999 |}) = ["10.0.0.1:8080"] /\
+  addrs_of legacy (resolve legacy false w_unnamed "ns" "web" {| bp_name := ""; bp_num := 9999 |}) = ["10.0.0.1:8080"] /\
+  resolve repaired false w_unnamed "ns" "web" {| bp_name := ""; bp_num := 9999 |} = Err ENoPort /\
   resolve_sub w_unnamed "ns" "web" 9999 [("version", "v1")] = Err ENoPort.
 Proof. vm_compute. auto. Qed.
 
@@ -739,7 +814,7 @@ Definition w_ext : Cluster :=
      c_slices := []; c_pods := [] |}.
 
 Theorem externalname_named_port_refuted :
-  fst (endpoints_entry true w_ext "ns" {| b_kind := KIng; b_svc := "web"; b_port := {| bp_name := "http"; bp_num := 0 |};
+  fst (endpoints_entry legacy true w_ext "ns" {| b_kind := KIng; b_svc := "web"; b_port := {| bp_name := "http"; bp_num := 0 |};
                                           b_clusterip := false; b_subsel := [] |}) = ["ext.example.com:0"] /\
   ideal_entry true w_ext "ns" {| b_kind := KIng; b_svc := "web"; b_port := {| bp_name := "http"; bp_num := 0 |};
                                  b_clusterip := false; b_subsel := [] |} = IExact ["ext.example.com:80"].
